@@ -224,4 +224,173 @@ theorem ev_range (P B : Int) (hP : 0 < P) (hs : List Int) (t0 : Int) (h0 : 0 ≤
 theorem H_range (P B : Int) (hP : 0 < P) (hs : List Int) : 0 ≤ H P B hs ∧ H P B hs < P :=
   ev_range P B hP hs 0 ⟨Int.le_refl 0, hP⟩
 
+/-! ### container-valued elements -/
+
+/-- two different residues are not congruent -/
+theorem range_ne_not_dvd (P a b : Int) (hP : 0 < P) (ha : 0 ≤ a ∧ a < P) (hb : 0 ≤ b ∧ b < P) (h : a ≠ b) : ¬ P ∣ a - b := by
+  rintro ⟨k, hk⟩
+  have : k = 0 := by
+    rcases Int.lt_trichotomy k 0 with h' | h' | h'
+    · exfalso
+      have : P * k ≤ P * (-1) := Int.mul_le_mul_of_nonneg_left (by omega) (by omega)
+      omega
+    · exact h'
+    · exfalso
+      have : P * 1 ≤ P * k := Int.mul_le_mul_of_nonneg_left (by omega) (by omega)
+      omega
+  subst this
+  apply h; omega
+
+/-- changing one element to one whose hash differs mod P changes the rolling hash, from any starting accumulator -/
+theorem ev_set_ne (P B : Nat) (hc : Nat.Coprime B P) (t0 : Int) (pre post : List Int) (x y : Int)
+    (hxy : ¬ (P : Int) ∣ y - x) :
+    ev P B t0 (pre ++ y :: post) ≠ ev P B t0 (pre ++ x :: post) := by
+  intro heq
+  rw [ev_append, ev_append] at heq
+  simp only [ev, List.foldl_cons] at heq
+  have c := ev_cong P B post (roll P B (List.foldl (roll P B) t0 pre) y) (roll P B (List.foldl (roll P B) t0 pre) x)
+  simp only [ev] at c
+  rw [heq] at c
+  obtain ⟨a, ha⟩ := roll_cong P B (List.foldl (roll (P : Int) B) t0 pre) y
+  obtain ⟨b, hb⟩ := roll_cong P B (List.foldl (roll (P : Int) B) t0 pre) x
+  obtain ⟨k, hk⟩ := c
+  apply hxy
+  apply dvd_of_dvd_mul_pow P B hc (y - x) post.length
+  generalize List.foldl (roll (P : Int) B) t0 pre = t at *
+  refine ⟨-k - (a - b) * (B : Int) ^ post.length, ?_⟩
+  have e : roll P B t y - roll P B t x = (y - x) + P * (a - b) := by
+    have : roll (P : Int) B t y - roll P B t x = (roll P B t y - (t * B + y)) - (roll P B t x - (t * B + x)) + (y - x) := by ring
+    rw [this, ha, hb]; ring
+  have hk' : (roll (P : Int) B t y - roll P B t x) * (B : Int) ^ post.length = -(P * k) := by
+    have : (0 : Int) - (roll (P : Int) B t y - roll P B t x) * (B : Int) ^ post.length = P * k := by
+      rw [← hk]; ring
+    omega
+  rw [e] at hk'
+  have : (y - x) * (B : Int) ^ post.length = -(P * k) - P * (a - b) * (B : Int) ^ post.length := by
+    rw [← hk']; ring
+  rw [this]; ring
+
+/-- the same items hashed from two starting accumulators that are not congruent give different hashes (kind and length matter) -/
+theorem ev_seed_ne (P B : Nat) (hc : Nat.Coprime B P) (t0 t1 : Int) (hs : List Int) (hne : ¬ (P : Int) ∣ t0 - t1) :
+    ev P B t0 hs ≠ ev P B t1 hs := by
+  intro heq
+  obtain ⟨k, hk⟩ := ev_cong P B hs t0 t1
+  rw [heq] at hk
+  apply hne
+  apply dvd_of_dvd_mul_pow P B hc (t0 - t1) hs.length
+  exact ⟨-k, by rw [Int.mul_neg, ← hk]; ring⟩
+
+/-- the table of starting accumulators holds residues -/
+theorem seedOf_range (hP : (0 : Int) < P)
+    (htab : Gen.fpSeeds.all (fun e => decide (0 ≤ e.2) && decide (e.2 < P)) = true) (k n : Nat) :
+    0 ≤ seedOf k n ∧ seedOf k n < P := by
+  unfold seedOf
+  cases h : Gen.fpSeeds.lookup (k, n) with
+  | none => exact ⟨Int.le_refl 0, hP⟩
+  | some s =>
+    have hm : ((k, n), s) ∈ Gen.fpSeeds := by
+      have : ∀ (l : List ((Nat × Nat) × Int)), l.lookup (k, n) = some s → ((k, n), s) ∈ l := by
+        intro l
+        induction l with
+        | nil => simp [List.lookup]
+        | cons p rest ih =>
+          obtain ⟨key, v⟩ := p
+          simp only [List.lookup]
+          split
+          · rename_i heq
+            intro hv
+            have hkey : (k, n) = key := by simpa using heq
+            simp only [Option.some.injEq] at hv
+            subst hv; subst hkey
+            exact List.mem_cons_self
+          · intro hv; exact List.mem_cons_of_mem _ (ih hv)
+      exact this _ h
+    have := (List.all_eq_true.mp htab) _ hm
+    simp only [Bool.and_eq_true, decide_eq_true_eq] at this
+    exact this
+
+theorem Elem.hashFrom_eq (es : List Elem) (t : Int) : Elem.hashFrom es t = ev P B t (es.map Elem.hash) := by
+  induction es generalizing t with
+  | nil => rfl
+  | cons e es ih => simp only [Elem.hashFrom, List.map_cons, ev, List.foldl_cons]; exact ih _
+
+/-- the hash of a container element is the rolling hash of its items' hashes from the accumulator of its kind and length -/
+theorem Elem.hash_seq (k : Nat) (es : List Elem) :
+    (Elem.seq k es).hash = ev P B (seedOf k es.length) (es.map Elem.hash) := by
+  simp only [Elem.hash, Elem.hashFrom_eq]
+
+theorem Elem.seq_range (hP : (0 : Int) < P) (hs : ∀ k n, 0 ≤ seedOf k n ∧ seedOf k n < P) (k : Nat) (es : List Elem) :
+    0 ≤ (Elem.seq k es).hash ∧ (Elem.seq k es).hash < P := by
+  rw [Elem.hash_seq]; exact ev_range P B hP _ _ (hs k es.length)
+
+theorem Elem.setAtList_length (es : List Elem) (i : Nat) (rest : List Nat) (y : Int) :
+    (Elem.setAtList es i rest y).length = es.length := by
+  induction es generalizing i with
+  | nil => simp [Elem.setAtList]
+  | cons e es ih =>
+    cases i with
+    | zero => simp [Elem.setAtList]
+    | succ i => simp [Elem.setAtList, ih]
+
+mutual
+/-- replacing the scalar at `path` (hash `x`) by one whose hash `y` is not congruent to `x` changes the hash of the enclosing
+    element by a non-multiple of P — at every nesting depth -/
+theorem Elem.setAt_changes (hc : Nat.Coprime Gen.FP_B Gen.FP_P) (hP : (0 : Int) < P)
+    (hs : ∀ k n, 0 ≤ seedOf k n ∧ seedOf k n < P) :
+    (e : Elem) → (path : List Nat) → (x y : Int) → e.leafAt path = some x → ¬ P ∣ y - x →
+      ¬ P ∣ (e.setAt path y).hash - e.hash
+  | .leaf h, [], x, y, hx, hne => by
+      simp only [Elem.leafAt, Option.some.injEq] at hx
+      subst hx
+      simpa [Elem.setAt, Elem.hash] using hne
+  | .leaf _, _ :: _, _, _, hx, _ => by simp [Elem.leafAt] at hx
+  | .seq _ _, [], _, _, hx, _ => by simp [Elem.leafAt] at hx
+  | .seq k es, i :: rest, x, y, hx, hne => by
+      obtain ⟨pre, post, a, b, h1, h2, h3⟩ :=
+        Elem.setAtList_changes hc hP hs es i rest x y (by simpa [Elem.leafAt] using hx) hne
+      simp only [Elem.setAt]
+      apply range_ne_not_dvd P _ _ hP (Elem.seq_range hP hs _ _) (Elem.seq_range hP hs _ _)
+      rw [Elem.hash_seq, Elem.hash_seq, h1, h2, Elem.setAtList_length]
+      exact ev_set_ne Gen.FP_P Gen.FP_B hc _ pre post a b h3
+theorem Elem.setAtList_changes (hc : Nat.Coprime Gen.FP_B Gen.FP_P) (hP : (0 : Int) < P)
+    (hs : ∀ k n, 0 ≤ seedOf k n ∧ seedOf k n < P) :
+    (es : List Elem) → (i : Nat) → (rest : List Nat) → (x y : Int) → Elem.leafAtList es i rest = some x → ¬ P ∣ y - x →
+      ∃ pre post a b, es.map Elem.hash = pre ++ a :: post ∧ (Elem.setAtList es i rest y).map Elem.hash = pre ++ b :: post
+        ∧ ¬ P ∣ b - a
+  | [], _, _, _, _, hx, _ => by simp [Elem.leafAtList] at hx
+  | e :: es, 0, rest, x, y, hx, hne =>
+      ⟨[], es.map Elem.hash, e.hash, (e.setAt rest y).hash, rfl, rfl,
+        Elem.setAt_changes hc hP hs e rest x y (by simpa [Elem.leafAtList] using hx) hne⟩
+  | e :: es, i + 1, rest, x, y, hx, hne => by
+      obtain ⟨pre, post, a, b, h1, h2, h3⟩ :=
+        Elem.setAtList_changes hc hP hs es i rest x y (by simpa [Elem.leafAtList] using hx) hne
+      exact ⟨e.hash :: pre, post, a, b, by simp [h1], by simp [Elem.setAtList, h2], h3⟩
+end
+
+/-- a container of the same items but another kind (or, with the items' hashes equal, another length class) hashes differently
+    when the starting accumulators differ -/
+theorem Elem.kind_ne (hc : Nat.Coprime Gen.FP_B Gen.FP_P) (hP : (0 : Int) < P)
+    (hs : ∀ k n, 0 ≤ seedOf k n ∧ seedOf k n < P) (k1 k2 : Nat) (es : List Elem)
+    (h : seedOf k1 es.length ≠ seedOf k2 es.length) : (Elem.seq k1 es).hash ≠ (Elem.seq k2 es).hash := by
+  rw [Elem.hash_seq, Elem.hash_seq]
+  exact ev_seed_ne Gen.FP_P Gen.FP_B hc _ _ _ (range_ne_not_dvd P _ _ hP (hs _ _) (hs _ _) h)
+
+/-- a value and the one-item container holding it are told apart: `x` against `[x]`, `(x,)`, `{x}` -/
+theorem Elem.wrap_ne (hc : Nat.Coprime Gen.FP_B Gen.FP_P) (hP : (0 : Int) < P)
+    (hs : ∀ k n, 0 ≤ seedOf k n ∧ seedOf k n < P) (k : Nat) (e : Elem) (h0 : seedOf k 1 ≠ 0) :
+    ¬ P ∣ (Elem.seq k [e]).hash - e.hash := by
+  intro hd
+  have hh : (Elem.seq k [e]).hash = roll P B (seedOf k 1) e.hash := by
+    simp [Elem.hash, Elem.hashFrom]
+  rw [hh] at hd
+  obtain ⟨a, ha⟩ := roll_cong P B (seedOf k 1) e.hash
+  obtain ⟨b, hb⟩ := hd
+  have h1 : (P : Int) ∣ seedOf k 1 * (B : Int) ^ 1 := by
+    refine ⟨b - a, ?_⟩
+    have : seedOf k 1 * B = (roll P B (seedOf k 1) e.hash - e.hash) - (roll P B (seedOf k 1) e.hash - (seedOf k 1 * B + e.hash)) := by ring
+    rw [Int.pow_succ, Int.pow_zero, Int.one_mul, this, hb, ha]; ring
+  have h2 : (P : Int) ∣ seedOf k 1 := dvd_of_dvd_mul_pow Gen.FP_P Gen.FP_B hc _ 1 h1
+  have := range_ne_not_dvd P (seedOf k 1) 0 hP (hs k 1) ⟨Int.le_refl 0, hP⟩ h0
+  exact this (by simpa using h2)
+
 end Serif.FP
